@@ -20,23 +20,25 @@ P = "pandapipes.pipeflow"
 PS = "pandapipes.pf.pipeflow_setup"
 
 EXPLANATION = (
-    "(R12.1) all functions reachable from pandapipes.pipeflow in the resolved call graph (component hooks dispatched "
-    "to every concrete class) are analysed with an alias/taint analysis: values that may share memory with user data "
-    "(net[<table>] and its column/.values/basic-slice views, net.fluid / get_fluid(net), net.std_types, "
-    "net.user_pf_options, also when read through net.get(<key>)) are tracked through assignments; copying operations (arithmetic, np.array, .copy(), .astype, "
-    "boolean/fancy indexing, np.repeat, nan_to_num without copy=False) clear the alias; sinks are subscript/attribute "
-    "stores, augmented assignments, in-place methods, numpy out=/copy=False, inplace=True and calls whose callee's "
-    "bottom-up mutation summary writes the corresponding parameter. Independently every component hook is summarised "
-    "by forward substitution and in-place stores into arrays aliasing a user column are reported. One named exception: "
-    "key hyd_flag written through set_user_pf_options (the documented mechanism of mode='heat'). (R12.2) scanning "
-    "pipeflow's statements and callees in source order (transient arms constant-propagated off), the first access of "
-    "every internal key net['_...'] is a write. (R12.3) each concrete component's create_pit_*_entries executes the "
-    "full-slice initialisation pit[:, :] = row template before any column write of its rows. (R12.4) no call into "
-    "random/time/uuid/secrets/os.urandom and no iteration over a set is reachable from pipeflow (a positive fixture "
-    "proves the detector). (R12.5, shared with C07 R7.3) hydraulics() and bidirectional() start from an empty net['_internal_data'] "
-    "whenever reuse_internal_data is off and remove it at the end unless it is on, so the cached matrix structure of an "
-    "earlier call never reaches a later one. Not decided: bit-identity of two runs; equality of mode='heat' continuation with "
-    "'sequential'.")
+    '(R12.1) all functions reachable from pandapipes.pipeflow in the resolved call graph (component hooks dispatched to '
+    'every concrete class) are analysed with an alias/taint analysis: values that may share memory with user data '
+    '(net[<table>] and its column/.values/basic-slice views, net.fluid / get_fluid(net), net.std_types, '
+    'net.user_pf_options, also when read through net.get(<key>)) are tracked through assignments; copying operations '
+    '(arithmetic, np.array, .copy(), .astype, boolean/fancy indexing, np.repeat, nan_to_num without copy=False) clear the'
+    ' alias; sinks are subscript/attribute stores, augmented assignments, in-place methods, numpy out=/copy=False, '
+    "inplace=True and calls whose callee's bottom-up mutation summary writes the corresponding parameter. Independently "
+    'every component hook is summarised by forward substitution and in-place stores into arrays aliasing a user column '
+    'are reported. One named exception: key hyd_flag written through set_user_pf_options (the documented mechanism of '
+    "mode='heat'). (R12.2) scanning pipeflow's statements and callees in source order (transient arms constant-propagated"
+    " off), the first access of every internal key net['_...'] is a write. (R12.3) each concrete component's "
+    'create_pit_*_entries executes the full-slice initialisation pit[:, :] = row template before any column write of its '
+    'rows. (R12.4) no call into random/time/uuid/secrets/os.urandom and no iteration over a set is reachable from '
+    'pipeflow (a positive fixture proves the detector). (R12.5, shared with C07 R7.3) hydraulics() and bidirectional() '
+    "start from an empty net['_internal_data'] whenever reuse_internal_data is off and remove it at the end unless it is "
+    'on, so the cached matrix structure of an earlier call never reaches a later one. (R12.6) the get_* methods of Fluid '
+    'and of the FluidProperty classes are pure: no store to an attribute or item of self or of an argument, no '
+    "global/nonlocal, no call of a mutating method on self's containers (a cached value would survive a replaced "
+    "property). Not decided: bit-identity of two runs; equality of mode='heat' continuation with 'sequential'.")
 ASSUMPTIONS = ["pandas .values / column access may return views (treated as aliases)", "boolean and integer-array indexing copy",
                "transient=False", "components registered at run time by user code are outside the tree"]
 TECHNIQUE = "call-graph reachability, alias/taint analysis with bottom-up mutation summaries, source-order first-access scan, per-class hook summaries"
